@@ -3,8 +3,10 @@ from __future__ import annotations
 
 import itertools
 import os
+import posixpath
 import shutil
 import socket
+import stat
 import sys
 import unicodedata
 from urllib.parse import quote, unquote, urljoin, urlsplit
@@ -43,15 +45,28 @@ RULES = {
     "sequence": "enumerated histories on ONE application object over a private tree that changes between the requests (file created, "
     "rewritten longer/shorter, removed, replaced by a directory and back, index page swapped, '<name>.html' appearing next to a name, "
     "working directory changed): every answer is judged against the tree as it is at that moment",
-    "layouts": "Hypothesis: generated layouts x generated paths, same oracle",
+    "links": "exhaustive: a layout with symbolic links below the directory (to directories inside it by relative and by absolute target, "
+    "to a sibling, to the parent and to the directory itself from further down, link to a link, to regular files inside and outside, "
+    "dangling, self-referring) next to plain files, directories and missing names: every path <prefix>/<anchor>/<dot segments>/<tail> "
+    "with the anchor (each link, a regular file, a missing name, a directory, a name that only has an '.html' twin) at the top, below a "
+    "directory, below a link and two levels down, followed by '..', '.', '../..', './..', '../.' and a tail that names a file, an index "
+    "page, a directory or a way back in - plus every own URL through a link - x Files/Pages x WSGI/ASGI, directory modes, mount and "
+    "handle_404 rotating (quick tier: a dot-segment path goes to two of the four kind x side combinations).  A dot segment is cancelled TEXTUALLY ('/link/../f' is '/f', whatever the link points to): what is served is "
+    "the content found at the lexical path, and the path handed to open() denotes the same file when its dot segments are removed "
+    "textually as when the file system walks them",
+    "layouts": "Hypothesis: generated layouts (a third of them with symbolic links to directories and files inside and outside the directory) x generated paths, same oracle",
 }
 # Outside the quantified domain (not generated, see the report of the strengthening pass):
 #  - request paths that are not valid UTF-8 (WSGI falls back to the Latin-1 reading of PATH_INFO, so the bytes '/caf%E9.txt' reach
 #    'caf\u00e9.txt'; ASGI answers 404) and files whose names on disk are not UTF-8;
 #  - an ASGI scope with server=None and no Host header (the pages redirect is then a bare path: '//dir' -> Location '//dir/').
 ASSUMPTIONS = [
-    "no symbolic links (the statement says 'lexically'); POSIX path semantics; file names and request paths are valid UTF-8; "
-    "the server address or a Host header is known",
+    "POSIX path semantics; file names and request paths are valid UTF-8; the server address or a Host header is known",
+    "symbolic links (sub-checks links and layouts only) are entries of the layout like any other: the statement resolves the request "
+    "path 'lexically', so a link is never what cancels or redirects a dot segment, and the name 'static/<lexical path>' denotes whatever "
+    "the file system finds there (a link to a regular file is a regular file at that path, wherever its target lives: the deployer put "
+    "the link into the directory).  Whether a file that is only reachable through a link must be served is left open (safety rules only: "
+    "a 404 is accepted for a URL that leads through a link)",
     "non-canonical URLs (dot segments, doubled slashes) may be served per the safety rule or answered not-found / "
     "(Pages, directory) redirected; when both d/ and d.html exist /d may redirect or serve d.html; a directory without index page may redirect or 404",
     "a URL that already ends in '.html' need not fall back to '<that>.html'; "
@@ -85,6 +100,12 @@ def _park_loop():
 core.AFTER_FORK.append(_reset)
 
 SOCKET = ["socket"]  # layout value: a unix socket (neither regular file nor directory)
+# layout value ["link", target]: a symbolic link; '<outer>', '<site>', '<static>' in the target stand for the absolute paths
+
+
+def LINK(target):
+    return ["link", target]
+
 
 LAYOUT_A = {
     "secret.txt": "OUTER-SECRET",
@@ -246,6 +267,12 @@ def materialise(layout, fresh=False):
             if os.path.isdir(path):
                 continue
             if isinstance(content, (list, tuple)):
+                if len(content) == 2 and content[0] == "link":
+                    if not os.path.lexists(path):
+                        site = os.path.join(outer, sitename)
+                        os.symlink(content[1].replace("<outer>", outer).replace("<site>", site).replace("<static>", os.path.join(site, "static")), path)
+                        specials[rel] = "link"
+                    continue
                 if list(content) != SOCKET:
                     raise core.HarnessError(f"unknown special entry {content!r}")
                 _mksocket(path)
@@ -265,15 +292,74 @@ def materialise(layout, fresh=False):
         fh.write("")
     info = {"outer": outer, "site": os.path.join(outer, sitename), "static": os.path.join(outer, sitename, "static"), "sitename": sitename,
             "files": files, "specials": specials}
+    info["links"] = sorted(rel for rel, what in specials.items() if what == "link" and rel.startswith(sitename + "/static/"))
     info["inside"], info["dirs"] = _inside(info)
     if not fresh:
         _ROOTS[key] = info
     return info
 
 
+class _Below:
+    """What the names below the configured directory denote in a tree WITH symbolic links, asked of the tree itself: the keys are
+    lexical paths (no empty or dot segments - the reference resolver has removed them), the file system follows the links in them."""
+
+    def __init__(self, static):
+        self.static = static
+
+    def full(self, rel):
+        if not isinstance(rel, str) or not rel or "\x00" in rel:
+            return None
+        segs = rel.split("/")
+        if any(s in ("", ".", "..") for s in segs):
+            return None
+        return os.path.join(self.static, *segs)
+
+    def mode(self, rel):
+        full = self.full(rel)
+        try:
+            return os.stat(full).st_mode if full is not None else None
+        except (OSError, ValueError):
+            return None
+
+
+class _FilesBelow(_Below):
+    def __contains__(self, rel):
+        mode = self.mode(rel)
+        return mode is not None and stat.S_ISREG(mode)
+
+    def __getitem__(self, rel):
+        with open(self.full(rel), "rb") as fh:
+            return fh.read()
+
+
+class _DirsBelow(_Below):
+    def __contains__(self, rel):
+        mode = self.mode(rel)
+        return mode is not None and stat.S_ISDIR(mode)
+
+
+def via_link(info, segs):
+    """the lexical path static/<segs> leads through (or ends in) a symbolic link"""
+    if not info.get("links") or not segs:
+        return False
+    full = info["static"]
+    for s in segs:
+        if s in ("", ".", "..") or "\x00" in s:
+            return False
+        full = os.path.join(full, s)
+        try:
+            if os.path.islink(full):
+                return True
+        except (OSError, ValueError):
+            return False
+    return False
+
+
 def _inside(info):
     """(regular files below the configured directory {relative path: content}, directories below it)"""
     static_rel = info["sitename"] + "/static"
+    if info.get("links"):
+        return _FilesBelow(info["static"]), _DirsBelow(info["static"])
     inside = {rel[len(static_rel) + 1:]: data for rel, data in info["files"].items() if rel.startswith(static_rel + "/")}
     dirs = set()
     for rel in list(inside) + [rel[len(static_rel) + 1:] for rel in info["specials"] if rel.startswith(static_rel + "/")]:
@@ -365,6 +451,30 @@ def build_app(info, kind, side, mode, mounted, h404=False):
     return app
 
 
+# the paths handed to open()/os.open() exactly as they were spelled (vfs records them normalised)
+_RAW = []
+_RAW_ARMED = [False]
+
+
+def _raw_audit(event, args):
+    if _RAW_ARMED[0] and event == "open":
+        try:
+            p = args[0]
+            if isinstance(p, (str, bytes)):
+                _RAW.append(os.path.join(os.getcwd(), os.fsdecode(p)))
+        except Exception:  # noqa: BLE001
+            pass
+
+
+sys.addaudithook(_raw_audit)
+
+
+class Opened(list):
+    """normalised paths of the open events (vfs) + .raw: the same as spelled"""
+
+    raw = ()
+
+
 def request(app, side, path, mounted, headers=(), minimal=False):
     """minimal=True: the server leaves out what it may leave out - CGI variables whose value is empty (PEP 3333: SCRIPT_NAME,
     PATH_INFO, QUERY_STRING), REMOTE_*; optional scope keys (root_path, raw_path, client).  The mount is then the server's:
@@ -374,6 +484,8 @@ def request(app, side, path, mounted, headers=(), minimal=False):
     else:
         rq = gw.areq(path=path, headers=headers, root_path="/mnt" if mounted else "", client=None)
     vfs.arm()
+    del _RAW[:]
+    _RAW_ARMED[0] = True
     try:
         if not minimal:
             run = gw.call_wsgi(app, rq) if side == "wsgi" else gw.call_asgi(app, rq)
@@ -390,7 +502,10 @@ def request(app, side, path, mounted, headers=(), minimal=False):
                 del scope["root_path"]
             run = gw.run_sync(gw.run_asgi(app, scope, ()))
     finally:
-        opened = vfs.disarm()
+        _RAW_ARMED[0] = False
+        opened = Opened(vfs.disarm())
+        opened.raw = tuple(_RAW)
+        del _RAW[:]
     return run, opened
 
 
@@ -406,6 +521,8 @@ def oracle(case) -> Result:
     run, opened = request(app, side, path, mounted, case.get("headers") or (), minimal)
     judge(r, info, case, app, run, opened)
     _labels(r, case, run.status_code if run.exc is None else None)
+    if info.get("links"):
+        _link_labels(r, info, path)
     r.key = (core.canon(case["layout"])[:40], kind, side, mode, mounted, path, case.get("h404", False), core.canon(case.get("headers") or []), minimal)
     return r
 
@@ -433,6 +550,19 @@ def judge(r, info, case, app, run, opened, where=""):
     for p in opened:
         if p.startswith(info["outer"] + os.sep) and not (p == info["static"] or p.startswith(info["static"] + os.sep)):
             r.fail(f"C07:{side}:opened-outside-directory", f"{ctx}: opened {p[len(info['outer']):]!r}")
+    # ... also when the spelling still has dot segments in it: the statement resolves them lexically, the file system walks them
+    # (through links, '..' of a link's target is not the link's parent); what is opened must be the file the lexical reading names
+    for p in getattr(opened, "raw", ()):
+        lexical = os.path.normpath(p)
+        if lexical == p or not lexical.startswith(info["outer"] + os.sep):
+            continue
+        try:
+            physical, named = os.path.realpath(p, strict=True), os.path.realpath(lexical)  # (strict: no such file - nothing was opened)
+        except (OSError, ValueError):
+            continue
+        if physical != named and not (physical == info["static"] or physical.startswith(info["static"] + os.sep)):
+            r.fail(f"C07:{side}:opened-outside-directory", f"{ctx}: opened {p[len(info['outer']):]!r}, which the file system resolves to {physical[len(info['outer']):] if physical.startswith(info['outer']) else physical!r} "
+                   f"(lexically it is {lexical[len(info['outer']):]!r})")
     # rule 0: the only answers there are: a file (200/206, 304 for a validator), not-found, and the pages app's redirect
     if not (status in (200, 206, 404) or (cond and status == 304) or (kind == "pages" and status in REDIRECTS)):
         r.fail(f"C07:{side}:{kind}:unexpected-status", f"{ctx}: status {status} Location {run.get('location')!r} body {run.body[:40]!r}")
@@ -469,7 +599,8 @@ def judge(r, info, case, app, run, opened, where=""):
         elif not canonical:
             check_redirect(r, info, app, case, run, path, ctx, False)
     # rule 3: completeness on canonical URLs ('/mnt' itself, which a mount hands over as '', is the root directory without slash)
-    if canonical:
+    # (a URL that leads through a symbolic link: the statement does not say that it must be served - not-found is accepted)
+    if canonical and not (status == 404 and via_link(info, segs)):
         trailing = path.endswith("/") and path != "/"
         if kind == "files" and trailing:
             # a URL ending in '/' is no regular file's own path ("every other path yields not-found"; the
@@ -578,6 +709,36 @@ def _labels(r, case, status):
         r.label("escape")
     elif ".." in segs:
         r.label("re-entry")
+
+
+def _link_labels(r, info, path):
+    """layouts with symbolic links: what the dot segments of the path come after (lexically), and whether the target is behind a link"""
+    out = []
+    above = False
+    for seg in path.split("/"):
+        if above:
+            break  # left the directory: no longer tracked
+        if seg in (".", ".."):
+            if out:
+                full = os.path.join(info["static"], *out)
+                try:
+                    what = "link" if os.path.islink(full) else "directory" if os.path.isdir(full) else "file" if os.path.lexists(full) else "missing"
+                except (OSError, ValueError):
+                    what = "missing"
+                r.label(f"'{seg}' after {what}")
+                if what != "directory":
+                    r.nontrivial = True
+            if seg == "..":
+                if out:
+                    out.pop()
+                else:
+                    above = True
+        elif seg != "":
+            out.append(seg)
+    segs = resolve(path, info["sitename"])
+    if via_link(info, segs):
+        r.label("target-through-link")
+        r.nontrivial = True
 
 
 SUBS = {"grid": oracle, "layouts": oracle}
@@ -790,6 +951,111 @@ def names_cases(quick=True):
     yield from mount_cases(LAYOUT_N, info, n)
 
 
+# ---- links ----------------------------------------------------------------------------------
+
+LAYOUT_L = {
+    "secret.txt": "OUTER-SECRET",
+    "file.txt": "OUTER-FILE",
+    "index.html": "OUTER-INDEX",
+    "S/secret.txt": "SITE-SECRET",
+    "S/file.txt": "SITE-FILE",
+    "S/index.html": "SITE-INDEX",
+    "S/x.html": "SITE-X-HTML",
+    "S/static.html": "SITE-STATIC-HTML",
+    "S/static2/file.txt": "SIBLING-FILE",
+    "S/static2/secret.txt": "SIBLING-SECRET",
+    "S/static2/index.html": "SIBLING-INDEX",
+    "S/static2/deep/file.txt": "SIBLING-DEEP-FILE",
+    "S/static2/deep/index.html": "SIBLING-DEEP-INDEX",
+    "S/static/file.txt": None,
+    "S/static/secret.txt": None,
+    "S/static/index.html": None,
+    "S/static/x.html": None,
+    "S/static/dir/file.txt": None,
+    "S/static/dir/secret.txt": None,
+    "S/static/dir/index.html": None,
+    "S/static/dir/x.html": None,
+    "S/static/dir/sub/file.txt": None,
+    "S/static/dir/sub/secret.txt": None,
+    "S/static/dir/sub/index.html": None,
+    "S/static/dir/sub/deep/file.txt": None,
+    "S/static/dir/sub/deep/index.html": None,
+    "S/static/other/file.txt": None,
+    "S/static/other/index.html": None,
+    "S/static/other/dir/file.txt": None,
+    "S/static/sock": SOCKET,
+    # links to directories inside the directory: '..' of the target is not the link's parent
+    "S/static/lin": LINK("dir/sub"),
+    "S/static/labs": LINK("<static>/dir/sub/deep"),
+    "S/static/dir/lsib": LINK("../other"),
+    "S/static/dir/sub/lcousin": LINK("../../other/dir"),
+    "S/static/lchain": LINK("lin"),
+    # ... to the directory itself and its parents, from further down
+    "S/static/dir/up": LINK(".."),
+    "S/static/dir/sub/top": LINK("<static>"),
+    "S/static/lup": LINK(".."),
+    "S/static/dir/lsite": LINK("<site>"),
+    # ... to directories outside
+    "S/static/lout": LINK("../static2/deep"),
+    "S/static/dir/loutabs": LINK("<site>/static2"),
+    # ... to regular files, to nothing, to itself
+    "S/static/lfile": LINK("dir/file.txt"),
+    "S/static/dir/lsecret": LINK("../../secret.txt"),
+    "S/static/lpage.html": LINK("dir/x.html"),
+    "S/static/dangling": LINK("nowhere"),
+    "S/static/loop": LINK("loop"),
+}
+LINK_PREFIXES = ["", "/dir", "/dir/sub", "/lin", "/dir/up"]
+LINK_ANCHORS = ["lin", "labs", "lsib", "lcousin", "lchain", "up", "top", "lup", "lsite", "lout", "loutabs", "lfile", "lsecret", "lpage", "dangling", "loop",
+                "file.txt", "missing", "dir", "sub", "x", "sock"]
+LINK_DOTS = ["..", ".", "../..", "./..", "../."]
+LINK_TAILS = ["", "/", "/file.txt", "/secret.txt", "/index.html", "/x", "/dir", "/dir/", "/dir/file.txt", "/static/file.txt", "/static2/file.txt", "/SITE/static/file.txt"]
+
+
+def links_paths(info):
+    seen = set()
+    out = []
+
+    def add(p):
+        p = p.replace("SITE", info["sitename"])
+        if p not in seen:
+            seen.add(p)
+            out.append(p)
+
+    # own URLs: every entry, directly and through every link that leads to a directory (one and two links deep)
+    entries = _entries(info)
+    hops = [""] + ["/" + e for e in entries if os.path.islink(os.path.join(info["static"], e)) and os.path.isdir(os.path.join(info["static"], e))]
+    few = ["file.txt", "secret.txt", "index.html", "x", "x.html", "dir", "dir/file.txt", "sub", "missing"]
+    for hop in hops + [a + b for a in hops[1:] for b in ("/up", "/top", "/lsib", "/lin")]:
+        for e in (entries + ["missing"]) if hop == "" else few:
+            add(hop + "/" + e)
+            add(hop + "/" + e + "/")
+            if e.endswith(".html"):
+                add(hop + "/" + e[:-5])
+    own = len(out)
+    for pre in LINK_PREFIXES:
+        for anchor in LINK_ANCHORS:
+            for dots in LINK_DOTS:
+                for tail in LINK_TAILS:
+                    add(pre + "/" + anchor + "/" + dots + tail)
+    return [(p, i < own) for i, p in enumerate(out)]
+
+
+def links_cases(quick=True):
+    info = materialise(LAYOUT_L)
+    n = 0
+    for i, (path, own) in enumerate(links_paths(info)):
+        for kind in ("files", "pages"):
+            for side in ("wsgi", "asgi"):
+                if quick and not own and (i + (kind == "pages") + (side == "asgi")) % 2:
+                    continue  # quick tier: a dot-segment path goes to two of the four kind x side combinations (alternating)
+                n += 1
+                case = {"layout": LAYOUT_L, "kind": kind, "side": side, "mode": MODES[(n + i) % len(MODES)], "mounted": ((n + i) // 5) % 3 == 0, "path": path}
+                if ((n + i) // 4) % 4 == 1:
+                    case["h404"] = True
+                yield case
+
+
 # ---- conditional ----------------------------------------------------------------------------
 
 FUTURE = "Fri, 01 Jan 2100 00:00:00 GMT"
@@ -952,10 +1218,27 @@ def layout_case(draw):
         segs = [draw(_names) for _ in range(depth)]
         rels.append("/".join(segs))
     # a path cannot be both file and directory: drop files that are prefixes of others
+    # a third of the layouts: symbolic links (leaves of the layout) to directories and files inside and outside the directory,
+    # by relative or absolute target.  Where a link leads: a position in the tree, written from the outer directory
+    links = {}
+    if draw(st.integers(0, 2)) == 0:
+        dirs_in = sorted({"/".join(r0.split("/")[:i]) for r0 in rels for i in range(1, len(r0.split("/")))})
+        places = [["S", "static"] + d.split("/") for d in dirs_in] + [["S", "static"] + r0.split("/") for r0 in rels]
+        places += [["S", "static"], ["S"], [], ["S", "static2"], ["S", "secret.txt"], ["S", "static", "nowhere"]]
+        for _ in range(draw(st.integers(1, 3))):
+            where = [draw(_names) for _ in range(draw(st.integers(0, 2)))] + [draw(st.sampled_from(["l1", "l2", "d", "p", "l1.html"]))]
+            to = draw(st.sampled_from(places))
+            if draw(st.booleans()):
+                target = "/".join((["<site>"] + to[1:]) if to[:1] == ["S"] else (["<outer>"] + to))
+            else:
+                target = posixpath.relpath("/" + "/".join(to), "/" + "/".join(["S", "static"] + where[:-1]))
+            links["/".join(where)] = LINK(target)
+        rels += list(links)
     rels = sorted(set(rels))
     keep = [r0 for r0 in rels if not any(o.startswith(r0 + "/") for o in rels)]
     for r0 in keep:
-        layout["S/static/" + r0] = None
+        layout["S/static/" + r0] = links.get(r0)
+    links = [r0 for r0 in keep if r0 in links]
     pool = sorted({s for r0 in keep for s in r0.split("/")}) + ["", ".", "..", "missing", "static", "static2", "secret.txt", "SITE", "mnt"]
     n = draw(st.integers(0, 4))
     path = "/" + "/".join(draw(st.sampled_from(pool)) for _ in range(n))
@@ -964,6 +1247,14 @@ def layout_case(draw):
     if draw(st.integers(0, 4)) == 0:
         base = draw(st.sampled_from(keep))
         path = "/" + base + draw(st.sampled_from(["", "/", ".html", "/index.html", "/..", "/../" + base.split("/")[-1]]))
+    elif links and draw(st.booleans()):
+        # dot segments right after a link, then one of the names of the layout
+        # (mostly the tail end of an entry: what the file system finds next to the link's target is then likely to exist)
+        if draw(st.integers(0, 3)):
+            tail = draw(st.sampled_from(keep)).split("/")[draw(st.integers(0, 2)):]
+        else:
+            tail = [draw(st.sampled_from(pool)) for _ in range(draw(st.integers(0, 2)))]
+        path = "/" + draw(st.sampled_from(links)) + "/" + draw(st.sampled_from(LINK_DOTS)) + "/" + "/".join(tail)
     case = {
         "layout": layout,
         "kind": draw(st.sampled_from(["files", "pages", "pages"])),
@@ -997,13 +1288,14 @@ SUBS["layouts"] = oracle_layouts
 SUBS["variants"] = oracle
 SUBS["names"] = oracle
 SUBS["conditional"] = oracle
+SUBS["links"] = oracle
 SUBS["sequence"] = oracle_sequence
 
 
 def enum_shard(rec, k, nshards, sub, quick):
     """every nshards-th case of an enumerated sub-check (enumeration order kept inside the shard)"""
     g = core.guarded(oracle)
-    cases = {"names": lambda: names_cases(quick), "conditional": conditional_cases, "variants": variant_cases}[sub]()
+    cases = {"names": lambda: names_cases(quick), "conditional": conditional_cases, "variants": variant_cases, "links": lambda: links_cases(quick)}[sub]()
     for i, case in enumerate(cases):
         if i % nshards != k:
             continue
@@ -1026,7 +1318,7 @@ def run(rec, only=None):
             core.run_sharded(rec, grid_shard, 64, core.ncpu(), (3, 1))
     rec.exhaustive["grid"] = not quick  # quick: all paths of <= 2 segments, every 40th of 3 segments
     # (the sub-checks that fork worker processes come first: the in-process ones start event-loop threads)
-    for sub in ("variants", "names", "conditional"):
+    for sub in ("variants", "names", "conditional", "links"):
         if only is None or sub in only:
             _park_loop()
             core.run_sharded(rec, enum_shard, 16, core.ncpu(), (sub, quick))
